@@ -181,6 +181,21 @@ func c10Check(e *core.Env, r *core.Rand, idx int64, text, rules string, single b
 				e.Violation("error-message", fmt.Sprintf("%s: error #%d: inconsistent title/details/message", en.name, k), w)
 			}
 		}
+		if known && !rec.LineAmbiguous && rec.Rule == "second open range in a record" && t.Errs[0].Panic == "" && t.Errs[0].Line == rec.BadLine+1 {
+			// where the rule that is broken names a thing on the line, the marked span is that thing: the second open range
+			// itself (its start time up to the last placeholder character), not the summary behind it
+			er := t.Errs[0]
+			rs := []rune(lines[er.Line-1].Text)
+			if er.Pos >= 0 && er.Len >= 0 && er.Pos+er.Len <= len(rs) {
+				marked := strings.TrimRight(string(rs[er.Pos:er.Pos+er.Len]), " \t") // (klog includes the blank that separates the summary)
+				en, v, _ := ref.ParseEntryText(marked)
+				if v != ref.Conforming || en.Kind != ref.KOpen || !strings.HasSuffix(marked, "?") {
+					e.Violation("error-span-does-not-mark-the-open-range", fmt.Sprintf("%s: the error for the second open range in line %d marks %q (position %d, length %d) of the line %q; the open range itself is what is wrong", en0name(en.Kind), er.Line, marked, er.Pos, er.Len, lines[er.Line-1].Text), w)
+				} else {
+					e.Count("second_open_range_spans_checked", 1)
+				}
+			}
+		}
 		if known && !rec.LineAmbiguous && t.Errs[0].Panic == "" && t.Errs[0].Line != rec.BadLine+1 {
 			e.Violation("first-error-on-wrong-line", fmt.Sprintf("%s: first error (%s) is reported on line %d, but the text stops conforming on line %d (%s): %q", en.name, t.Errs[0].Code, t.Errs[0].Line, rec.BadLine+1, rec.Rule, lines[rec.BadLine].Text), w)
 		}
@@ -358,3 +373,5 @@ func c10Renderings(e *core.Env, r *core.Rand, idx int64, text string, api []obs.
 		e.Count("json_reports_checked", 1)
 	}
 }
+
+func en0name(k ref.EntKind) string { return "parser" }
